@@ -23,21 +23,26 @@ def run_passes(rep, binary, passes, total_budget_s):
             continue
         budget = min(ps.get("budget_s", left), left)
         try:
-            r = vlib.explore(binary, ps["harness"], ps.get("bound", -1), budget, cache=ps.get("cache", True),
-                             dev_bound=ps.get("dev_bound", -1), cfg=ps.get("cfg"), nshards=ps.get("nshards"))
+            por = ps.get("por", ps.get("bound", -1) < 0)
+            r = vlib.explore(binary, ps["harness"], ps.get("bound", -1), budget, cache=ps.get("cache", not por),
+                             dev_bound=ps.get("dev_bound", -1), cfg=ps.get("cfg"), nshards=ps.get("nshards"), por=por)
         except vlib.EngineError as e:
             rep.engine_errors.append(str(e))
             break
         s = {"label": ps.get("label") or ps["harness"], "cfg": ps.get("cfg"), "preemption_bound": ps.get("bound", -1),
-             "cache": ps.get("cache", True), "executions": r["executions"], "transitions": r["transitions"],
-             "states": r["states"], "cache_hits": r.get("cache_hits", 0), "max_depth": r["max_depth"], "max_threads": r["max_threads"],
+             "reduction": "sleep sets (unbounded preemptions)" if por else "happens-before state cache",
+             "executions": r["executions"], "executions_sleep_set_blocked": r.get("sleep_blocked", 0), "transitions": r["transitions"],
+             "states": r["states"], "cache_hits": r.get("cache_hits", 0), "executions_cut_early_by_cache": r.get("cut_early", 0), "shard_mode": r.get("shard_mode"), "max_depth": r["max_depth"], "max_threads": r["max_threads"],
              "distinct_outcomes": r["n_outcomes"], "exhaustive": r["exhaustive"], "wall_s": round(r["wall_s"], 1),
              "violating_executions": r["sig_counts"], "step_limited": r.get("step_limited", 0)}
         if not r["exhaustive"]:
             s["stop_reason"] = r.get("stop_reason")
             all_exh = False
         summary.append(s)
-        tot["states"] += max(r["states"], r["n_outcomes"])
+        # states: distinct HB state keys (cache mode); in sleep-set mode every complete execution is a
+        # distinct Mazurkiewicz trace, which is what is counted
+        complete = r["executions"] - r.get("sleep_blocked", 0) - r.get("cut_early", 0)
+        tot["states"] += r["states"] if not por else complete
         tot["transitions"] += r["transitions"]
         tot["executions"] += r["executions"]
         tot["outcomes"] += r["n_outcomes"]
